@@ -1,6 +1,12 @@
 import IceProofs.Sys2C01Main
 import IceProofs.Sys2C01LiveNoise
 import IceProofs.Sys2C01LiveWide
+import IceProofs.Sys2C01LiveDisc
+import IceProofs.Sys2C01LiveDisc2
+import IceProofs.Sys2C01LiveDisc3
+import IceProofs.Sys2C01LiveRetx
+import IceProofs.Sys2C01LiveDiscRoutes
+import IceProofs.Sys2C01LiveDisc4
 /-!
 # C01 — two agents converge on the same, working candidate pair (SAFETY part)
 
@@ -747,6 +753,370 @@ the MODEL converges. -/
 example : ¬ SufOK false 6000000000 0 (Sys.runs s0 pre) big
     ∧ (Sys.runs s0 (pre ++ big)).a.selected = some 2 ∧ (Sys.runs s0 (pre ++ big)).b.selected = some 3
     ∧ (Sys.runs s0 (pre ++ big)).a.connState = .connected ∧ (Sys.runs s0 (pre ++ big)).b.connState = .connected := by
+  decide
+
+
+/-! ### Round 4: convergence from the first valid pair on — a pair created by a discovery INSIDE the suffix -/
+
+open IceProofs.C01Live in
+/-- **liveness (partial): convergence on every fair loss-free suffix in which the controlling agent has its first valid
+pair by time `B`** — NO hypothesis on the pairs of the start state (`hstart` of `C01_converges_fair_partial` is gone):
+the pair may be created inside the suffix by a peer-reflexive discovery, the controlled agent's check being the first
+datagram on that route.  `ValidBy c B s suf` (decidable, a property of the schedule): at some split point of `suf` with
+clock `≤ B` the controlling agent has a Succeeded or selected pair.  Beyond
+`validBound = max B nomTime + 2 s + 2 J + 4 L` BOTH agents have a selected pair and are Connected.
+
+The full statement would DERIVE `ValidBy` from fairness and "some address pair is reachable both ways and both agents
+have a candidate on it, the controlled agent's pair on it within its budget"; that derivation is proved only from
+`Start` (`C01_first_valid_fair_partial`), see `C01_first_valid_needs_start_witness`. -/
+theorem C01_converges_fair_valid_partial (s0 : Sys) (pre : List SysEv) (hi : Sys.Init s0) (hf : FreshSel s0)
+    (hs : LocalsSane s0.nat pre) (c : Bool) (T0 H L J B : Nat) (hr : ReadyF pre c T0 H L (Sys.runs s0 pre))
+    (hL : J + 2 * L < 4000000000) (hfuel : J < 99998 * Config.minInterval ((Sys.runs s0 pre).agent c).cfg)
+    (suf : List SysEv) (hsuf : SufOK c H J (Sys.runs s0 pre) suf) (hfair : FairL L (Sys.runs s0 pre) suf)
+    (hvalid : ValidBy c B (Sys.runs s0 pre) suf)
+    (hend : validBound c L J B (Sys.runs s0 pre) < (Sys.runs s0 (pre ++ suf)).now) :
+    ∀ x, ((Sys.runs s0 (pre ++ suf)).agent x).selected.isSome = true ∧
+         ((Sys.runs s0 (pre ++ suf)).agent x).connState = .connected := by
+  have hL' : J + 2 * L < maxBindingRequestTimeout := by unfold maxBindingRequestTimeout; exact hL
+  obtain ⟨hfi, hlink⟩ := ready_finv (J := J) hi hf hs hr hfuel (by omega)
+  rw [Sys.runs_append] at hend ⊢
+  exact converge_fair_from hfi hsuf hfair hL' hlink hvalid hend
+
+open IceProofs.C01Live in
+/-- **liveness (partial): the first valid pair.**  From a `ReadyF` state in which the controlling agent has a valid or
+selected pair or a pair under budget on a reachable address pair (`hstart`), every fair loss-free suffix whose clock
+passes `now + 2 s + J + 2 L` gives the controlling agent a Succeeded or selected pair by that time.  (Composed with
+`C01_converges_fair_valid_partial` this is `C01_converges_fair_partial`.)
+
+Full statement (NOT proved): the same conclusion with `hstart` replaced by "the CONTROLLED agent has a pair under budget
+on a reachable address pair" — its tick pings, the controlling agent discovers the source, pairs it and checks it. -/
+theorem C01_first_valid_fair_partial (s0 : Sys) (pre : List SysEv) (hi : Sys.Init s0) (hf : FreshSel s0)
+    (hs : LocalsSane s0.nat pre) (c : Bool) (T0 H L J : Nat) (hr : ReadyF pre c T0 H L (Sys.runs s0 pre))
+    (hstart : HasSucc (Sys.runs s0 pre) c ∨ Sel (Sys.runs s0 pre) c ∨ BudgetPairD c (Sys.runs s0 pre))
+    (hL : J + 2 * L < 4000000000) (hfuel : J < 99998 * Config.minInterval ((Sys.runs s0 pre).agent c).cfg)
+    (suf : List SysEv) (hsuf : SufOK c H J (Sys.runs s0 pre) suf) (hfair : FairL L (Sys.runs s0 pre) suf)
+    (hend : (Sys.runs s0 pre).now + 2000000000 + J + 2 * L < (Sys.runs s0 (pre ++ suf)).now) :
+    ValidBy c ((Sys.runs s0 pre).now + 2000000000 + J + 2 * L) (Sys.runs s0 pre) suf := by
+  have hL' : J + 2 * L < maxBindingRequestTimeout := by unfold maxBindingRequestTimeout; exact hL
+  obtain ⟨hfi, _⟩ := ready_finv (L := L) (J := J) hi hf hs hr hfuel (by omega)
+  rw [Sys.runs_append] at hend
+  exact first_valid_by hfi hsuf hfair hL' (hstart.imp id (Or.imp id BudgetPairD.budget)) hend
+
+namespace LiveExample
+/-- `f5_disc`: A (16, controlling) is told 32 only and 16 ↔ 32 is blocked both ways (and A cannot reach itself); B has
+32 and 33 -/
+def s12 : Sys := { s0 with blocked := [(32, 16), (16, 32), (16, 16)] }
+def blk (t : Nat) : List SysEv := SysEv.advance t :: List.replicate 12 (SysEv.deliver 0)
+/-- everything in flight, then A's ticks every 200 ms with everything in flight after each, the keepalive tick at
+3.2 s, a last advance to 4.5 s -/
+def suf12 : List SysEv :=
+  List.replicate 12 (.deliver 0) ++ blk 200000000 ++ blk 400000000 ++ blk 600000000 ++ blk 800000000 ++ blk 1000000000 ++
+  blk 1200000000 ++ blk 3200000000 ++ [.advance 4500000000]
+/-- nothing is reachable -/
+def sBlk : Sys := { s0 with blocked := [(32, 16), (16, 32), (16, 16), (33, 16), (16, 33)] }
+def sufBlk : List SysEv := List.replicate 12 (.deliver 0) ++ (List.range 12).flatMap fun i => blk ((i + 1) * 200000000)
+end LiveExample
+
+set_option maxRecDepth 100000 in
+open LiveExample IceProofs.C01Live in
+/-- non-vacuity of `C01_converges_fair_valid_partial` AT THE POINT `C01_converges_fair_partial` EXCLUDES: the controlling
+agent's only pair at the start (16 → 32) is not on a `Link` (`hstart` fails); B's check 33 → 16, in flight at the start,
+makes A discover 33, pair 16 → 33 and check it in the forced tick; the answer validates the pair at time 0 (`ValidBy … 0`);
+all hypotheses hold (`L` = 100 ms, `validBound` = 4.4 s).  Real agents: `notes/C01-live-f5_disc.ops`, 0 mismatches. -/
+example : LocalsSane s12.nat pre10 ∧ ReadyF pre10 false 0 5000000000 100000000 (Sys.runs s12 pre10)
+    ∧ ¬ (HasSucc (Sys.runs s12 pre10) false ∨ Sel (Sys.runs s12 pre10) false ∨ BudgetPairD false (Sys.runs s12 pre10))
+    ∧ SufOK false 5000000000 0 (Sys.runs s12 pre10) suf12 ∧ FairLD 100000000 (Sys.runs s12 pre10) suf12
+    ∧ ValidBy false 0 (Sys.runs s12 pre10) suf12
+    ∧ validBound false 100000000 0 0 (Sys.runs s12 pre10) < (Sys.runs s12 (pre10 ++ suf12)).now
+    ∧ ((Sys.runs s12 pre10).a.remotes.map fun r => (r.addr, r.ty)) = [(32, 1)]
+    ∧ ((Sys.runs s12 (pre10 ++ suf12)).a.remotes.map fun r => (r.addr, r.ty)) = [(32, 1), (33, 3)] := by
+  decide
+
+set_option maxRecDepth 100000 in
+open LiveExample IceProofs.C01Live in
+/-- non-vacuity of `C01_first_valid_fair_partial`: the first example (`pre`, `suf`), deadline 2.2 s. -/
+example : ReadyF pre false 0 5000000000 100000000 (Sys.runs s0 pre) ∧ BudgetPairD false (Sys.runs s0 pre)
+    ∧ SufOK false 5000000000 0 (Sys.runs s0 pre) suf ∧ FairLD 100000000 (Sys.runs s0 pre) suf
+    ∧ (Sys.runs s0 pre).now + 2000000000 + 0 + 2 * 100000000 < (Sys.runs s0 (pre ++ suf)).now
+    ∧ ValidBy false 2200000000 (Sys.runs s0 pre) suf := by
+  decide
+
+set_option maxRecDepth 100000 in
+open LiveExample IceProofs.C01Live in
+/-- `hstart` cannot simply be dropped from `C01_first_valid_fair_partial`: with NO address pair reachable every other
+hypothesis holds on a fair loss-free suffix, and no valid pair ever appears (what must replace `hstart` in the full
+statement is a reachable pair under budget at the CONTROLLED agent). -/
+theorem C01_first_valid_needs_start_witness :
+    ¬ (∀ (s0 : Sys) (pre : List SysEv) (c : Bool) (T0 H L J : Nat), Sys.Init s0 → FreshSel s0 → LocalsSane s0.nat pre →
+        ReadyF pre c T0 H L (Sys.runs s0 pre) → J + 2 * L < 4000000000 →
+        J < 99998 * Config.minInterval ((Sys.runs s0 pre).agent c).cfg →
+        ∀ suf, SufOK c H J (Sys.runs s0 pre) suf → FairLD L (Sys.runs s0 pre) suf →
+        (Sys.runs s0 pre).now + 2000000000 + J + 2 * L < (Sys.runs s0 (pre ++ suf)).now →
+        ValidBy c ((Sys.runs s0 pre).now + 2000000000 + J + 2 * L) (Sys.runs s0 pre) suf) := by
+  intro h
+  have := h sBlk pre10 false 0 5000000000 100000000 0 ⟨rfl, rfl, rfl, rfl, rfl, rfl, rfl, rfl, rfl, rfl, rfl, rfl, rfl, rfl, rfl⟩
+    (by decide) (by decide) (by decide) (by decide) (by decide) sufBlk (by decide) (by decide) (by decide)
+  revert this
+  decide
+
+
+open IceProofs.C01Live in
+/-- **liveness (partial): convergence through a pair that comes into being by a peer-reflexive discovery INSIDE the
+suffix.**  Start class = `ReadyF` WITHOUT `hstart` (the controlling agent need not have any usable pair) + `DiscReqD`
+(decidable): an ordinary check of the CONTROLLED agent is in flight on an address pair reachable both ways (`Link`), and
+the controlling agent does not know its source as a remote candidate.  On every fair loss-free suffix (latency `L`,
+jumps `J`, `J + 2 L < 4 s`): the controlling agent discovers the source within `L` (the delivery of that check, or of any
+other datagram from that source), pairs it with its local candidate and checks the new pair in the forced tick; the
+pair is valid within `3 L`; beyond `validBound … (now + 3 L) = max (now + 3 L) nomTime + 2 s + 2 J + 4 L` BOTH agents have a
+selected pair and are Connected.
+
+Full statement (NOT proved): `DiscReqD` replaced by "the controlled agent has a pair under budget on a `Link`" (its next
+tick sends the check) — needs the controlled agent's ticks as progress steps, see notes/C01-live.md. -/
+theorem C01_converges_fair_disc_partial (s0 : Sys) (pre : List SysEv) (hi : Sys.Init s0) (hf : FreshSel s0)
+    (hs : LocalsSane s0.nat pre) (c : Bool) (T0 H L J : Nat) (hr : ReadyF pre c T0 H L (Sys.runs s0 pre))
+    (hdisc : DiscReqD c (Sys.runs s0 pre))
+    (hL : J + 2 * L < 4000000000) (hfuel : J < 99998 * Config.minInterval ((Sys.runs s0 pre).agent c).cfg)
+    (suf : List SysEv) (hsuf : SufOK c H J (Sys.runs s0 pre) suf) (hfair : FairL L (Sys.runs s0 pre) suf)
+    (hend : validBound c L J ((Sys.runs s0 pre).now + 3 * L) (Sys.runs s0 pre) < (Sys.runs s0 (pre ++ suf)).now) :
+    ∀ x, ((Sys.runs s0 (pre ++ suf)).agent x).selected.isSome = true ∧
+         ((Sys.runs s0 (pre ++ suf)).agent x).connState = .connected := by
+  have hL' : J + 2 * L < maxBindingRequestTimeout := by unfold maxBindingRequestTimeout; exact hL
+  obtain ⟨hfi, hlink⟩ := ready_finv (J := J) hi hf hs hr hfuel (by omega)
+  rw [Sys.runs_append] at hend ⊢
+  have hend' : (Sys.runs s0 pre).now + 3 * L < (Sys.runs (Sys.runs s0 pre) suf).now := by
+    unfold validBound at hend
+    have := Nat.le_max_left ((Sys.runs s0 pre).now + 3 * L) (nomTime c (Sys.runs s0 pre))
+    omega
+  exact converge_fair_from hfi hsuf hfair hL' hlink (disc_valid_D hfi hsuf hfair hL' hdisc hend') hend
+
+set_option maxRecDepth 100000 in
+open LiveExample IceProofs.C01Live in
+/-- non-vacuity of `C01_converges_fair_disc_partial` on the `f5_disc` state: `hstart` fails, B's check 33 → 16 is in
+flight and A does not know 33 (`DiscReqD`); with nothing reachable (`sBlk`) `DiscReqD` fails. -/
+example : LocalsSane s12.nat pre10 ∧ ReadyF pre10 false 0 5000000000 100000000 (Sys.runs s12 pre10)
+    ∧ ¬ (HasSucc (Sys.runs s12 pre10) false ∨ Sel (Sys.runs s12 pre10) false ∨ BudgetPairD false (Sys.runs s12 pre10))
+    ∧ DiscReqD false (Sys.runs s12 pre10) ∧ ¬ DiscReqD false (Sys.runs sBlk pre10)
+    ∧ SufOK false 5000000000 0 (Sys.runs s12 pre10) suf12 ∧ FairLD 100000000 (Sys.runs s12 pre10) suf12
+    ∧ validBound false 100000000 0 ((Sys.runs s12 pre10).now + 3 * 100000000) (Sys.runs s12 pre10)
+        < (Sys.runs s12 (pre10 ++ suf12)).now := by
+  decide
+
+
+open IceProofs.C01Live in
+/-- **liveness (partial): the controlled agent's TICK as the progress step.**  Start class = `ReadyF` WITHOUT `hstart` +
+`TickReqD` (decidable): nothing in flight is deliverable (e.g. the controlled agent's first check was lost), the
+controlled agent has no selected pair, its timer is due not later than the controlling agent's, and it has a pair
+Waiting / In-Progress within its request budget on an address pair reachable both ways whose local address the
+controlling agent does not know.  On every fair loss-free suffix: the controlled agent's tick sends the check (by
+`ctlTick + J` at the latest), the controlling agent discovers the source, pairs and checks it
+(`C01_converges_fair_disc_partial`), has a valid pair by `ctlTick + J + 3 L`, and beyond
+`validBound … (ctlTick + J + 3 L)` BOTH agents have a selected pair and are Connected.
+
+Full statement (NOT proved): without "nothing in flight is deliverable" and "timer not later than the controlling
+agent's" — then deliveries to the controlled agent before its tick must be shown not to take its pair out of
+Waiting / In-Progress or to select it without the controlling agent having a valid pair (notes/C01-live.md). -/
+theorem C01_converges_fair_tick_partial (s0 : Sys) (pre : List SysEv) (hi : Sys.Init s0) (hf : FreshSel s0)
+    (hs : LocalsSane s0.nat pre) (c : Bool) (T0 H L J : Nat) (hr : ReadyF pre c T0 H L (Sys.runs s0 pre))
+    (htick : TickReqD c (Sys.runs s0 pre))
+    (hL : J + 2 * L < 4000000000) (hfuel : J < 99998 * Config.minInterval ((Sys.runs s0 pre).agent c).cfg)
+    (suf : List SysEv) (hsuf : SufOK c H J (Sys.runs s0 pre) suf) (hfair : FairL L (Sys.runs s0 pre) suf)
+    (hend : validBound c L J (ctlTick c (Sys.runs s0 pre) + J + 3 * L) (Sys.runs s0 pre) < (Sys.runs s0 (pre ++ suf)).now) :
+    ∀ x, ((Sys.runs s0 (pre ++ suf)).agent x).selected.isSome = true ∧
+         ((Sys.runs s0 (pre ++ suf)).agent x).connState = .connected := by
+  have hL' : J + 2 * L < maxBindingRequestTimeout := by unfold maxBindingRequestTimeout; exact hL
+  obtain ⟨hfi, hlink⟩ := ready_finv (J := J) hi hf hs hr hfuel (by omega)
+  rw [Sys.runs_append] at hend ⊢
+  have hend' : ctlTick c (Sys.runs s0 pre) + J + 3 * L < (Sys.runs (Sys.runs s0 pre) suf).now := by
+    unfold validBound at hend
+    have := Nat.le_max_left (ctlTick c (Sys.runs s0 pre) + J + 3 * L) (nomTime c (Sys.runs s0 pre))
+    omega
+  exact converge_fair_from hfi hsuf hfair hL' hlink (tick_valid_D hfi hsuf hfair hL' htick hend') hend
+
+namespace LiveExample
+/-- `f6_tick`: as `f5_disc`, but B's first check 33 → 16 has been LOST; only blocked datagrams are in flight -/
+def pre13 : List SysEv := pre10 ++ [.drop 2]
+def suf13 : List SysEv :=
+  List.replicate 3 (.deliver 0) ++ blk 200000000 ++ blk 400000000 ++ blk 600000000 ++ blk 800000000 ++ blk 1000000000 ++
+  blk 1200000000 ++ blk 3200000000 ++ [.advance 4600000000]
+end LiveExample
+
+set_option maxRecDepth 100000 in
+open LiveExample IceProofs.C01Live in
+/-- non-vacuity of `C01_converges_fair_tick_partial`: B's check is not in flight (`DiscReqD` fails), B's tick at 200 ms
+re-sends it; `validBound` = 4.4 s.  (On `pre10` the check is still in flight, deliverable: `TickReqD` fails there.)
+Real agents: `notes/C01-live-f6_tick.ops`. -/
+example : LocalsSane s12.nat pre13 ∧ ReadyF pre13 false 0 5000000000 100000000 (Sys.runs s12 pre13)
+    ∧ ¬ DiscReqD false (Sys.runs s12 pre13) ∧ TickReqD false (Sys.runs s12 pre13) ∧ ¬ TickReqD false (Sys.runs s12 pre10)
+    ∧ ctlTick false (Sys.runs s12 pre13) = 200000000
+    ∧ SufOK false 5000000000 0 (Sys.runs s12 pre13) suf13 ∧ FairLD 100000000 (Sys.runs s12 pre13) suf13
+    ∧ validBound false 100000000 0 (ctlTick false (Sys.runs s12 pre13) + 0 + 3 * 100000000) (Sys.runs s12 pre13)
+        < (Sys.runs s12 (pre13 ++ suf13)).now := by
+  decide
+
+
+open IceProofs.C01Live in
+/-- **liveness (partial): the controlled agent converges through its OWN retransmission** (a start class `ReadyF`
+EXCLUDES: `NomSeenD ∧ ¬ DPYD`).  `ReadyF0` = `ReadyF` without the clause `¬ NomSeenD ∨ DPYD`; `RetxD` (decidable): the
+controlling agent is selected, the controlled agent is not, NOTHING in flight is deliverable (its nomination-triggered
+check was lost), its timer is due not later than the controlling agent's, and it has a pair Waiting / In-Progress
+within its request budget on an address pair reachable both ways whose responses are looked up to a pair marked
+`nomOnSuccess`.  On every fair loss-free suffix (`J + 2 L < 2 s`): the controlled agent's tick re-sends the check (by
+`ctlTick + J`), the controlling agent answers, the response selects; beyond `validBound … (ctlTick + J)` BOTH agents have
+a selected pair and are Connected.
+
+Full statement (NOT proved): without "nothing in flight is deliverable" / "timer not later than the controlling agent's". -/
+theorem C01_converges_fair_retx_partial (s0 : Sys) (pre : List SysEv) (hi : Sys.Init s0) (hf : FreshSel s0)
+    (hs : LocalsSane s0.nat pre) (c : Bool) (T0 H L J : Nat) (hr : ReadyF0 pre c T0 H (Sys.runs s0 pre))
+    (hretx : RetxD c (Sys.runs s0 pre))
+    (hL : J + 2 * L < 2000000000) (hfuel : J < 99998 * Config.minInterval ((Sys.runs s0 pre).agent c).cfg)
+    (suf : List SysEv) (hsuf : SufOK c H J (Sys.runs s0 pre) suf) (hfair : FairL L (Sys.runs s0 pre) suf)
+    (hend : validBound c L J (ctlTick c (Sys.runs s0 pre) + J) (Sys.runs s0 pre) < (Sys.runs s0 (pre ++ suf)).now) :
+    ∀ x, ((Sys.runs s0 (pre ++ suf)).agent x).selected.isSome = true ∧
+         ((Sys.runs s0 (pre ++ suf)).agent x).connState = .connected := by
+  have hL' : J + 2 * L < maxBindingRequestTimeout := by unfold maxBindingRequestTimeout; omega
+  have hfi := ready_finv0 (J := J) hi hf hs hr hfuel (by omega)
+  rw [Sys.runs_append] at hend ⊢
+  exact retx_converge_D hfi hsuf hfair hL' hL hretx hend
+
+namespace LiveExample
+/-- `f7_retx`: `pre3` (A selected, B not, B's triggered check in flight), then EVERYTHING deliverable in flight is lost -/
+def pre14 : List SysEv := pre3 ++ [.drop 1, .drop 1, .drop 1, .drop 1]
+def suf14 : List SysEv :=
+  [.deliver 0] ++ blk 400000000 ++ blk 2400000000 ++ blk 4400000000 ++ [.advance 4500000000]
+end LiveExample
+
+set_option maxRecDepth 100000 in
+open LiveExample IceProofs.C01Live in
+/-- non-vacuity of `C01_converges_fair_retx_partial`: `ReadyF` fails (A is selected, B's check is gone), `ReadyF0` and
+`RetxD` hold (on `pre3` the check is still in flight: `RetxD` fails there); B's tick at 400 ms re-sends the check on its
+marked pair 32 → 17; `validBound` = 4.4 s.  Real agents: `notes/C01-live-f7_retx.ops`. -/
+example : LocalsSane s0.nat pre14 ∧ ReadyF0 pre14 false 0 5000000000 (Sys.runs s0 pre14)
+    ∧ ¬ ReadyF pre14 false 0 5000000000 100000000 (Sys.runs s0 pre14)
+    ∧ RetxD false (Sys.runs s0 pre14) ∧ ¬ RetxD false (Sys.runs s0 pre3)
+    ∧ ctlTick false (Sys.runs s0 pre14) = 400000000
+    ∧ SufOK false 5000000000 0 (Sys.runs s0 pre14) suf14 ∧ FairLD 100000000 (Sys.runs s0 pre14) suf14
+    ∧ validBound false 100000000 0 (ctlTick false (Sys.runs s0 pre14) + 0) (Sys.runs s0 pre14)
+        < (Sys.runs s0 (pre14 ++ suf14)).now := by
+  decide
+
+
+/-! ### Round 4, (c): one wide start class -/
+
+open IceProofs.C01Live in
+/-- **the wide start class** (decidable): `ReadyF` with one of — the controlling agent has a valid / selected / budgeted
+pair on a reachable address pair (`hstart`); a check of the controlled agent is in flight on a reachable pair whose
+source the controlling agent does not know (`DiscReqD`); that check is lost, quiet network (`TickReqD`) — or `ReadyF0`
+with: controlling agent selected, the controlled agent's triggered check lost, quiet network (`RetxD`, `J + 2 L < 2 s`). -/
+def ReadyW (pre : List SysEv) (c : Bool) (T0 H L J : Nat) (s : Sys) : Prop :=
+  (ReadyF pre c T0 H L s ∧ ((HasSucc s c ∨ Sel s c ∨ BudgetPairD c s) ∨ DiscReqD c s ∨ TickReqD c s)) ∨
+  (ReadyF0 pre c T0 H s ∧ RetxD c s ∧ J + 2 * L < 2000000000)
+
+open IceProofs.C01Live in
+instance (pre : List SysEv) (c : Bool) (T0 H L J : Nat) (s : Sys) : Decidable (ReadyW pre c T0 H L J s) := by
+  unfold ReadyW; infer_instance
+
+open IceProofs.C01Live in
+/-- the time by which every `ReadyW` start has converged -/
+def wideBound (c : Bool) (L J : Nat) (s : Sys) : Nat :=
+  validBound c L J (max (s.now + 2000000000 + J + 2 * L) (ctlTick c s + J + 3 * L)) s
+
+open IceProofs.C01Live in
+/-- **liveness (partial): convergence on every fair loss-free suffix from the wide start class `ReadyW`**, one bound
+`wideBound = max (now + 2 s + J + 2 L) (ctlTick + J + 3 L) nomTime + 2 s + 2 J + 4 L` (the four round-3/4 theorems composed).
+
+Full statement `C01_converges` (NOT proved): any reachable state of two opposite-role agents holding each other's
+credentials with one bidirectionally reachable candidate address pair within the retry budget, every fair schedule —
+the quiet-network restrictions of `TickReqD` / `RetxD`, the jump bound and the exclusions of `ReadyF` remain
+(notes/C01-live.md). -/
+theorem C01_converges_fair_wide_partial (s0 : Sys) (pre : List SysEv) (hi : Sys.Init s0) (hf : FreshSel s0)
+    (hs : LocalsSane s0.nat pre) (c : Bool) (T0 H L J : Nat) (hr : ReadyW pre c T0 H L J (Sys.runs s0 pre))
+    (hL : J + 2 * L < 4000000000) (hfuel : J < 99998 * Config.minInterval ((Sys.runs s0 pre).agent c).cfg)
+    (suf : List SysEv) (hsuf : SufOK c H J (Sys.runs s0 pre) suf) (hfair : FairL L (Sys.runs s0 pre) suf)
+    (hend : wideBound c L J (Sys.runs s0 pre) < (Sys.runs s0 (pre ++ suf)).now) :
+    ∀ x, ((Sys.runs s0 (pre ++ suf)).agent x).selected.isSome = true ∧
+         ((Sys.runs s0 (pre ++ suf)).agent x).connState = .connected := by
+  unfold wideBound validBound at hend
+  rcases hr with ⟨hrf, hst | hd | ht⟩ | ⟨hr0, hx, hJ⟩
+  · exact C01_converges_fair_partial s0 pre hi hf hs c T0 H L J hrf hst hL hfuel suf hsuf hfair
+      (by unfold fairBound; omega)
+  · exact C01_converges_fair_disc_partial s0 pre hi hf hs c T0 H L J hrf hd hL hfuel suf hsuf hfair
+      (by unfold validBound; omega)
+  · exact C01_converges_fair_tick_partial s0 pre hi hf hs c T0 H L J hrf ht hL hfuel suf hsuf hfair
+      (by unfold validBound; omega)
+  · exact C01_converges_fair_retx_partial s0 pre hi hf hs c T0 H L J hr0 hx hJ hfuel suf hsuf hfair
+      (by unfold validBound; omega)
+
+namespace LiveExample
+def suf12w : List SysEv := suf12.dropLast ++ [.advance 4700000000]
+end LiveExample
+
+set_option maxRecDepth 100000 in
+open LiveExample IceProofs.C01Live in
+/-- non-vacuity of `C01_converges_fair_wide_partial`: the four example states (budgeted pair at A; B's check in flight,
+source unknown to A; that check lost; A selected and B's triggered check lost) are all `ReadyW`, the unreachable one
+is not; on the discovery state the fair suffix `suf12w` passes `wideBound` (4.6 s). -/
+example : ReadyW pre false 0 5000000000 100000000 0 (Sys.runs s0 pre)
+    ∧ ReadyW pre10 false 0 5000000000 100000000 0 (Sys.runs s12 pre10)
+    ∧ ReadyW pre13 false 0 5000000000 100000000 0 (Sys.runs s12 pre13)
+    ∧ ReadyW pre14 false 0 5000000000 100000000 0 (Sys.runs s0 pre14)
+    ∧ ¬ ReadyW pre10 false 0 5000000000 100000000 0 (Sys.runs sBlk pre10)
+    ∧ SufOK false 5000000000 0 (Sys.runs s12 pre10) suf12w ∧ FairLD 100000000 (Sys.runs s12 pre10) suf12w
+    ∧ wideBound false 100000000 0 (Sys.runs s12 pre10) < (Sys.runs s12 (pre10 ++ suf12w)).now := by
+  decide
+
+
+/-! ### Round 4: the controlled agent's tick WITHOUT "its timer is due first" -/
+
+open IceProofs.C01Live in
+/-- **liveness (partial): the controlled agent's tick as the progress step, the controlling agent ticking in between.**
+As `C01_converges_fair_tick_partial`, but `TickReq2D` (decidable) replaces "the controlled agent's timer is due not
+later than the controlling agent's" by "every (local address, known remote address) route of the controlling agent is
+undeliverable" (blocked, or nobody listens): the controlling agent's ticks before the controlled agent's tick then
+only send undeliverable checks (`advance_routes`: a clock advance sends only on such routes).  The controlled agent's tick
+sends the check by `cldTick + 2 s + J`; valid pair by `cldTick + 2 s + J + 3 L`.
+
+Full statement (NOT proved): without "nothing in flight is deliverable" / "routes undeliverable" (notes/C01-live.md). -/
+theorem C01_converges_fair_tick2_partial (s0 : Sys) (pre : List SysEv) (hi : Sys.Init s0) (hf : FreshSel s0)
+    (hs : LocalsSane s0.nat pre) (c : Bool) (T0 H L J : Nat) (hr : ReadyF pre c T0 H L (Sys.runs s0 pre))
+    (htick : TickReq2D c (Sys.runs s0 pre))
+    (hL : J + 2 * L < 4000000000) (hfuel : J < 99998 * Config.minInterval ((Sys.runs s0 pre).agent c).cfg)
+    (suf : List SysEv) (hsuf : SufOK c H J (Sys.runs s0 pre) suf) (hfair : FairL L (Sys.runs s0 pre) suf)
+    (hend : validBound c L J (cldTick c (Sys.runs s0 pre) + 2000000000 + J + 3 * L) (Sys.runs s0 pre)
+      < (Sys.runs s0 (pre ++ suf)).now) :
+    ∀ x, ((Sys.runs s0 (pre ++ suf)).agent x).selected.isSome = true ∧
+         ((Sys.runs s0 (pre ++ suf)).agent x).connState = .connected := by
+  have hL' : J + 2 * L < maxBindingRequestTimeout := by unfold maxBindingRequestTimeout; exact hL
+  obtain ⟨hfi, hlink⟩ := ready_finv (J := J) hi hf hs hr hfuel (by omega)
+  rw [Sys.runs_append] at hend ⊢
+  have hend' : cldTick c (Sys.runs s0 pre) + 2000000000 + J + 3 * L < (Sys.runs (Sys.runs s0 pre) suf).now := by
+    unfold validBound at hend
+    have := Nat.le_max_left (cldTick c (Sys.runs s0 pre) + 2000000000 + J + 3 * L) (nomTime c (Sys.runs s0 pre))
+    omega
+  exact converge_fair_from hfi hsuf hfair hL' hlink
+    (tick_valid2_D (fun hg hT h => advance_routes hg hT h) hfi hsuf hfair hL' htick hend') hend
+
+namespace LiveExample
+/-- `f8_tick2`: A starts at 0, B at 100 ms; B's first check 33 → 16 is lost; A's timer (200 ms) is due BEFORE B's (300 ms) -/
+def pre15 : List SysEv :=
+  [.api false (.addLocal 0 cA1), .api true (.addLocal 0 cB1), .api true (.addLocal 0 cB2),
+   .api false (.addRemote 0 cB1), .api true (.addRemote 0 cA1),
+   .api false (.start 0 true "ub" "pb"), .advance 100000000, .api true (.start 100000000 false "ua" "pa"), .drop 2]
+def suf15 : List SysEv :=
+  List.replicate 3 (.deliver 0) ++ blk 200000000 ++ blk 300000000 ++ blk 500000000 ++ blk 700000000 ++ blk 900000000 ++
+  blk 1100000000 ++ blk 1300000000 ++ blk 3300000000 ++ [.advance 4700000000]
+end LiveExample
+
+set_option maxRecDepth 100000 in
+open LiveExample IceProofs.C01Live in
+/-- non-vacuity of `C01_converges_fair_tick2_partial` where `TickReqD` fails (A's tick at 200 ms comes first, it pings
+the blocked pair 16 → 32); B's tick at 300 ms re-sends its check; `L` = 50 ms, `validBound` = 4.65 s.
+Real agents: `notes/C01-live-f8_tick2.ops`. -/
+example : LocalsSane s12.nat pre15 ∧ ReadyF pre15 false 0 5000000000 50000000 (Sys.runs s12 pre15)
+    ∧ TickReq2D false (Sys.runs s12 pre15) ∧ ¬ TickReqD false (Sys.runs s12 pre15) ∧ ¬ DiscReqD false (Sys.runs s12 pre15)
+    ∧ cldTick false (Sys.runs s12 pre15) = 300000000 ∧ ctlTick false (Sys.runs s12 pre15) = 200000000
+    ∧ SufOK false 5000000000 0 (Sys.runs s12 pre15) suf15 ∧ FairLD 50000000 (Sys.runs s12 pre15) suf15
+    ∧ validBound false 50000000 0 (cldTick false (Sys.runs s12 pre15) + 2000000000 + 0 + 3 * 50000000) (Sys.runs s12 pre15)
+        < (Sys.runs s12 (pre15 ++ suf15)).now := by
   decide
 
 end IceProps.C01
